@@ -526,7 +526,7 @@ func genHostileString(t *rapid.T) string {
 	case 5:
 		return genJSONNumber(t)
 	case 6:
-		return []string{"null", "true", `"1"`, "[1]", "{}", "", " ", "\x00", "%", "%!", "%%"}[ir(t, 0, 10, "fixed")]
+		return []string{"null", "true", `"1"`, "[1]", "{}", "", " ", "\x00", "%", "%!", "%%", "i", "in", "inx", "-i", "+in", "n", "na", "nax", "+n", "-na", "I", "N", "  inf", "inf inf", "nan5", "1 2"}[ir(t, 0, 26, "fixed")]
 	case 7:
 		// 16-byte and near-16-byte binary strings
 		return string(ubytes(t, ir(t, 14, 18, "n"), "bin"))
